@@ -30,6 +30,7 @@ func init() {
 			{ID: "C05.R10", Text: "the dirty marks and the dump range over a faithful map (same rule as C04.R9)", Run: wrapperFaithful},
 			{ID: "C05.R11", Text: "settled progress is tracked and marked: an acknowledgement and every absorbed non-document event move the position exactly once with dirty=true (same rule as C04.R10)", Run: func(c *Ctx, id string) { ackMoves(c, id); absorbMoves(c, id) }},
 			{ID: "C05.R12", Text: "the dump and the dirty-set copy cover every vBucket: every loop over a concurrent map runs to completion: the Range callback returns true on every path (frozen exception: markAbsentInstances stops at the error it returns)", Run: rangeComplete("stream.checkpoint).Save", "couchbase.cbMetadata)", "metadata.")},
+			{ID: "C05.R13", Text: "a save that returned is over: the checkpoint writes to the configured backend, the supplied store or the read-only wrapper — dcp.metadata is assigned nothing else (no decorator whose write can outlive the call)", Run: metadataIsTheConfiguredOne},
 			{ID: "C05.R8", Text: "mark/clear atomicity: the sites that mark the dirty state and the site that clears it hold a common mutex", Run: c05r8},
 		},
 	})
